@@ -639,11 +639,11 @@ C15_Counters(s, o) ==
   Reported(o) =>
      LET n == ClosedRec(o).n  w == o.wire IN
      \* received-from counters never exceed what the peer wrote; sent-to counters never exceed what the peer received,
-     \* unless that peer reset the connection (bytes accepted by the kernel may be dropped unread)
+     \* unless that peer reset the connection or was reset (bytes accepted by a kernel may be dropped unread)
      /\ n[1] <= w.cs /\ n[3] <= w.ts
      \* sent-to counters never exceed what the write system calls really handed to the sockets (whatever fails meanwhile)
      /\ n[2] <= w.pt /\ n[4] <= w.pc
-     /\ (~s.trst /\ s.tcl = "no" => n[2] <= w.tr) /\ (~Has(o.clog, -1) /\ ~s.crst => n[4] <= w.cr)
+     /\ (~s.trst /\ s.tcl = "no" /\ ~Has(o.tlog, -1) => n[2] <= w.tr) /\ (~Has(o.clog, -1) /\ ~s.crst => n[4] <= w.cr)
      /\ (ClosedRec(o).s = "OK" => n[1] = w.cs /\ (s.tcl = "no" => n[2] = w.tr) /\ n[3] = w.ts /\ n[4] = w.cr)
 
 (* ---- C18 (per connection) ------------------------------------------------ *)
